@@ -177,6 +177,16 @@ let () =
         let res = (match resolve_pair a b with Some w -> show w | None -> "none") in
         Printf.printf "P %s | %s -> %s ; %s\n" (show a) (show b) res (show (default_pair a b))) grid) grid;
       loop ()
+    | Some "F" ->
+      (* F tag stage : FsModel.predict for a generation that fails at the given stage (or none) *)
+      let tag = (match next () with Some s -> s | None -> failwith "tag") in
+      let st = (match next () with
+        | Some "lex" -> Some SLex | Some "syntax" -> Some SSyntax | Some "visit" -> Some SVisit | Some "build" -> Some SBuild
+        | Some "const" -> Some SConst | Some "union" -> Some SUnion | Some "table" -> Some STable | Some "state" -> Some SState
+        | Some "reduce" -> Some SReduce | Some "translate" -> Some STranslate | Some "create" -> Some SCreate | Some "write" -> Some SWrite
+        | _ -> None) in
+      Printf.printf "F %s %s\n" tag (match predict st with Some Old -> "old" | Some Empty -> "empty" | Some New -> "new" | None -> "absent");
+      loop ()
     | Some "M" ->
       (* M tag rows cols cells... : pack a matrix, print unpack(pack) and the lookups *)
       let tag = (match next () with Some s -> s | None -> failwith "tag") in
